@@ -14,6 +14,7 @@ from rope.base import (
     codeanalyze,
     evaluate,
     exceptions,
+    fscommands,
     libutils,
     pynames,
     pyobjects,
@@ -488,6 +489,9 @@ class MoveGlobal:
         # Include comment lines before the definition
         start_line = lines.get_line_number(start)
         while start_line > 1 and lines.get_line(start_line - 1).startswith("#"):
+            if _is_module_header_line(lines, start_line - 1):
+                # the interpreter line and the coding line belong to the module
+                break
             start_line -= 1
         start = lines.get_line_start(start_line)
 
@@ -795,6 +799,14 @@ def _add_imports_to_module(import_tools, pymodule, new_imports):
     for new_import in new_imports:
         module_with_imports.add_import(new_import)
     return module_with_imports.get_changed_source()
+
+
+def _is_module_header_line(lines, lineno):
+    """Is it the '#!' interpreter line or the PEP 263 coding line of the module?"""
+    line = lines.get_line(lineno)
+    if lineno == 1 and line.startswith("#!"):
+        return True
+    return lineno <= 2 and fscommands.read_str_coding(line) is not None
 
 
 def moving_code_with_imports(project, resource, source):
